@@ -10,16 +10,23 @@ def sh(cmd, **kw):
 
 def main():
     args = [a for a in sys.argv[1:] if not a.startswith("--")]
+    chunk = [a for a in sys.argv[1:] if a.startswith("--chunk=")]
+    chunk = tuple(int(x) for x in chunk[0][8:].split("/")) if chunk else (0, 1)
+    skip_precheck = "--no-precheck" in sys.argv
     with_baseline = "--baseline" in sys.argv
     mutants = json.load(open(os.path.join(HERE, "selftest", "mutants.json")))
     # work on a scratch copy of /repo's working tree (outside /repo and /verif); cutplace is imported from it
     # through CPVERIF_REPO, so /repo itself is never touched and other runs are not disturbed
     scratch = tempfile.mkdtemp(prefix="cpverif_mutants_")
-    sh("git -C /repo archive HEAD | tar -x -C %s" % scratch)
+    sh("git -C /repo archive HEAD | tar -x -C %s && cd %s && git init -q && git add -A && git -c user.name=x -c user.email=x@x commit -q -m scratch" % (scratch, scratch))
     env = dict(os.environ, CPVERIF_REPO=scratch)
     results = []
     selected = [m for m in mutants if not args or any(a in m["name"] for a in args)]
-    for prop in sorted(set(p for m in selected for p in m["props"])):
+    selected = [m for k, m in enumerate(selected) if k % chunk[1] == chunk[0]]
+    names = set(m["name"] for m in selected)
+    mutants = [m for m in mutants if m["name"] in names]
+    args = []
+    for prop in ([] if skip_precheck else sorted(set(p for m in selected for p in m["props"]))):
         r = sh("%s/vcheck %s quick" % (HERE, prop), cwd=HERE, env=env)
         if r.returncode != 0:
             print("refusing: %s is not green on the unchanged tree (rc=%d), 'caught' would mean nothing" % (prop, r.returncode)); return 2
@@ -35,8 +42,7 @@ def main():
             open(path, "w", encoding="utf-8").write(src.replace(m["old"], m["new"]))
             status = []
             if with_baseline:
-                b = sh("cd %s && PYTHONPATH=%s /venv/bin/python -m pytest -q -x -p no:cacheprovider --timeout=900 %s 2>&1 | tail -3" % (scratch, scratch, " ".join(sorted(set(t.split("::")[0].replace(".", "/") + ".py" for t in json.load(open("/root/.vp/BASELINE.json"))["stable_pass"])))))
-                b.returncode = 0 if (" passed" in b.stdout and " failed" not in b.stdout.replace("2 failed", "")) else 1
+                b = sh("/venv/bin/python %s/tools/baseline_off.py --repo %s" % (HERE, scratch))
                 status.append("baseline:" + ("survives" if b.returncode == 0 else "KILLED-BY-TESTS"))
             for prop in m["props"]:
                 t0 = time.time()
